@@ -173,6 +173,20 @@ Proof.
   exists t. repeat split; assumption.
 Qed.
 
+Lemma do_hook_inv s c from to amt s' :
+  do_hook s c from to amt = ROk s' ->
+  exists sym t s2, amt <= erc20_bal s c from /\ get c (contracts s) = Some sym /\ get sym (tokens s) = Some t
+    /\ p_erc20 (pars s) = true /\ valid_addr to = true /\ amt <> 0
+    /\ bank_mint (upd_erc20 s (set (c, from) (erc20_bal s c from - amt) (erc20 s))) (t_minunit t) amt = ROk s2
+    /\ bank_pay s2 to (t_minunit t) amt = ROk s'.
+Proof.
+  unfold do_hook, token_by_symbol. intros H. inv_if H. destruct (get c (contracts s)) as [sym|] eqn:Ec; [|discriminate].
+  destruct (get sym (tokens s)) as [t|] eqn:Et; [|discriminate].
+  inv_if H. inv_if H. inv_if H. cbv zeta in H. inv_bind H.
+  apply Z.ltb_ge in E. apply Bool.negb_false_iff in E0. apply Bool.negb_false_iff in E1. apply Z.eqb_neq in E2.
+  exists sym, t, x. repeat split; assumption.
+Qed.
+
 (** ** how each message changes the registry *)
 Lemma bank_only_tok_same m s s' : bank_only s s' -> tok_step m s s'.
 Proof. intros H. pose proof (bank_only_next _ _ H). apply bank_only_fields in H. destruct H as (Ht & Hm & _). apply TSsame; assumption. Qed.
@@ -281,6 +295,13 @@ Proof.
     unfold do_set_params in H. inv_if H. inversion H. apply TSsame; reflexivity.
   - (* EvmMode *)
     inversion H. apply TSsame; reflexivity.
+  - (* HookToNative *)
+    apply do_hook_inv in H. destruct H as (sym0 & t & s2 & _ & _ & _ & _ & _ & _ & Hm & Hp).
+    pose proof (bank_only_next _ _ (bank_mint_only _ _ _ _ Hm)) as Hn1.
+    pose proof (bank_only_next _ _ (bank_pay_only _ _ _ _ _ Hp)) as Hn2.
+    apply bank_mint_only, bank_only_fields in Hm. destruct Hm as (Ht1 & Hm1 & _).
+    apply bank_pay_only, bank_only_fields in Hp. destruct Hp as (Ht2 & Hm2 & _).
+    apply TSsame; simpl in *; congruence.
 Qed.
 
 (** ** the registry invariant is preserved by every message *)
@@ -424,7 +445,7 @@ Definition CapOK (s : state) : Prop :=
 
 (** every message except the two that mint without looking at the cap *)
 Definition cap_checked (m : msg) : bool :=
-  match m with FromErc20 _ _ _ _ | SwapFee _ _ _ _ => false | _ => true end.
+  match m with FromErc20 _ _ _ _ | SwapFee _ _ _ _ | HookToNative _ _ _ _ => false | _ => true end.
 
 Lemma pow10_nonneg n : 0 <= pow10 n.
 Proof. unfold pow10. apply Z.pow_nonneg. lia. Qed.
@@ -706,6 +727,8 @@ Proof.
     rewrite (burned_of_bank_only _ _ d (bank_pay_only _ _ _ _ _ E)), (burned_of_bank_only _ _ d (bank_mint_only _ _ _ _ E4)). reflexivity.
   - unfold do_set_params in E. inv_if E. inversion E. reflexivity.
   - inversion E. reflexivity.
+  - apply do_hook_inv in E. destruct E as (sym0 & t & s2 & _ & _ & _ & _ & _ & _ & Hm & Hp).
+    rewrite (burned_of_bank_only _ _ d (bank_pay_only _ _ _ _ _ Hp)), (burned_of_bank_only _ _ d (bank_mint_only _ _ _ _ Hm)). reflexivity.
 Qed.
 
 Lemma run_burned ms : forall s d, IdInv s -> burned_of (run s ms) d = burned_of s d + burnt_in s ms d.
